@@ -77,6 +77,12 @@ where
     // the content itself must be the value of the bytes
     let inner: T = minicbor::decode(&b).map_err(|err| Fail { sig: format!("{name}:inner-decode"), msg: err.to_string() })?;
     pv_ensure!(*v == inner, format!("{name}:inner-differs"), "content {:?} differs from plain decode {:?}", *v, inner);
+    // detaching the wrapper from the input buffer keeps the original bytes too
+    let owned: KeepRaw<'static, T> = v.to_owned();
+    pv_ensure!(owned.raw_cbor() == &b[..], format!("{name}:to_owned:raw-differs"), "to_owned().raw_cbor() {} != input {}", hex::encode(owned.raw_cbor()), hex::encode(&b));
+    let e2 = minicbor::to_vec(&owned).map_err(|err| Fail { sig: format!("{name}:to_owned:encode-error"), msg: err.to_string() })?;
+    pv_ensure!(e2 == b, format!("{name}:to_owned:form-not-preserved"), "{name} accepted {}, after to_owned() it re-encodes as {}", hex::encode(&b), hex::encode(&e2));
+    pv_ensure!(*owned == inner, format!("{name}:to_owned:inner-differs"), "to_owned() content {:?} differs from plain decode {:?}", *owned, inner);
     obs.nontrivial_if(nontrivial(node));
     Ok(())
 }
